@@ -57,6 +57,15 @@ Theorem C06_no_panic_handle_bid : forall K addr evs h,
 Proof. exact PreconfProvider_traces.no_rpanic_node. Qed.
 Print Assumptions C06_no_panic_handle_bid.
 
+(* ... nor does the provider-API service inside that machine reach its own crash state (a send on a closed
+   channel in the bidsInProcess callback); without this the theorem above would hold trivially after such a
+   crash, because the machine freezes. *)
+Theorem C06_no_panic_provider_service : forall K addr evs,
+  ProviderSvc.panicked (PreconfProvider.svc
+    (PreconfProvider.run K ProviderSvc.rules_validators (PreconfProvider.node_wiring addr) evs)) = false.
+Proof. exact provider_service_never_panics. Qed.
+Print Assumptions C06_no_panic_provider_service.
+
 (* The two hand-written copies of big.Int.SetString(s, 10) (provider model, EIP-712 model) are one function,
    and a bid that VerifyBid accepts has an amount that parses and is in range. *)
 Theorem C06_verified_amount_parses : forall K cr (b : bid) a,
@@ -155,17 +164,20 @@ Theorem C06_no_panic_signer_verify : forall K cr sig msg,
 Proof. exact signer_verify_no_panic. Qed.
 Print Assumptions C06_no_panic_signer_verify.
 
-(* Handle and Handshake, for every script of incoming frames, every oracle and every write-failure pattern,
-   end in an enrolment or in one of the seven refusals. *)
-Theorem C06_handshake_outcomes : forall c o wfail script,
-  let closed r := (exists A T, r = Handshake.Enrol A T) \/
-                  (exists cl, r = Handshake.Refuse cl /\
-                     In cl [Handshake.RSig; Handshake.RAddr; Handshake.RStake; Handshake.RRead;
-                            Handshake.RWrite; Handshake.RPid; Handshake.REcho]) in
-  closed (Handshake.res (Handshake.handle c o wfail script)) /\
-  closed (Handshake.res (Handshake.handshake c o wfail script)).
-Proof. exact handshake_outcomes. Qed.
-Print Assumptions C06_handshake_outcomes.
+(* Handle and Handshake with the real signature check plugged in (NoPanic.handle_outcome / handshake_outcome:
+   model/Handshake.v run with signer_verify as its Verify oracle; a crash iff one of the Verify calls the run
+   made crashes -- the only panic-prone operation on these paths, see the table above): for every script of
+   incoming frames (any number, any decodable request / response values, read failures anywhere), every
+   write-failure pattern, every transport identity and registry answer, no panic. *)
+Theorem C06_no_panic_handshake_handle : forall K cr c pid reg wfail script,
+  recover_total cr -> recover_len cr -> handle_outcome K cr c pid reg wfail script <> Panic.
+Proof. exact handle_outcome_no_panic. Qed.
+Print Assumptions C06_no_panic_handshake_handle.
+
+Theorem C06_no_panic_handshake_initiate : forall K cr c pid reg wfail script,
+  recover_total cr -> recover_len cr -> handshake_outcome K cr c pid reg wfail script <> Panic.
+Proof. exact handshake_outcome_no_panic. Qed.
+Print Assumptions C06_no_panic_handshake_initiate.
 
 (* "...ends with an error or a stream reset": every transcript that is not the one admissible exchange is
    refused, the connection is closed and nothing is registered, announced or returned (inbound wrapper
@@ -220,6 +232,22 @@ Theorem C06_peers_list_only_dials : forall s from ok entries,
   Topology.announces eff = [] /\ Topology.wires eff = [] /\ Topology.adds eff = [].
 Proof. exact Topology_proofs.gossip_step. Qed.
 Print Assumptions C06_peers_list_only_dials.
+
+(* ---- unknown roles ------------------------------------------------------------------------------------------------
+   p2p.FromString has a default (-1); PeerType.String has a default ("unknown"); Topology.add / Disconnected switch on
+   the two known types and ignore every other value.  (That String / add do not index with the type is what the
+   peer-type / topology-peers driver entries and the E2UnknownRole class check.) *)
+Theorem C06_unknown_role_is_minus_one : forall s,
+  Handshake.role_of_string s = (-1)%Z \/ Handshake.role_of_string s = 0%Z \/
+  Handshake.role_of_string s = 1%Z \/ Handshake.role_of_string s = 2%Z.
+Proof. exact unknown_role_default. Qed.
+Print Assumptions C06_unknown_role_is_minus_one.
+
+Theorem C06_topology_ignores_unknown_type : forall p st,
+  Topology.p_role p <> Topology.ROLE_PROVIDER -> Topology.p_role p <> Topology.ROLE_BIDDER ->
+  Topology.add p st = st /\ Topology.remove p st = st.
+Proof. exact topology_ignores_unknown_type. Qed.
+Print Assumptions C06_topology_ignores_unknown_type.
 
 (* ---- (2) the entry table ------------------------------------------------------------------------------------------
    model/NoPanic.v predicts, per entry kind and input summary, whether the Go code panics.  For the signer
